@@ -328,6 +328,72 @@ theorem Range.leaf (sepr : Bool) (d : DS) (s : Fields) (ms : MSpec) : Range d (l
   · refine ⟨by simp [leafR], by simp [leafR], ?_, by simp [leafR, F.seps, T.seps], by simp [leafR, F.seps, T.seps]⟩
     simp [leafR, F.ticks, T.ticks]
 
+/-- what has accumulated while an explicitly spelled action (started at counters `d0`) is open -/
+structure RangeX (d0 : DS) (sepr : Bool) (kids : F) (d : DS) : Prop where
+  tickLe : d0.tick + 1 ≤ d.tick
+  nuLe : (if sepr = true then d0.nu + 1 else d0.nu) ≤ d.nu
+  ticks : F.ticks kids = List.range' (d0.tick + 1) (d.tick - (d0.tick + 1))
+  uu : ∀ u ∈ (F.seps kids).map (·.1), (if sepr = true then d0.nu + 1 else d0.nu) ≤ u ∧ u < d.nu
+  uun : ((F.seps kids).map (·.1)).Nodup
+
+theorem RangeX.seq {d0 : DS} {sepr : Bool} {kids : F} {d : DS} {r : R} (h1 : RangeX d0 sepr kids d) (h2 : Range d r) :
+    RangeX d0 sepr (kids.append r.f) r.ds := by
+  refine ⟨Nat.le_trans h1.tickLe h2.tickLe, Nat.le_trans h1.nuLe h2.nuLe, ?_, ?_, ?_⟩
+  · simp only [F.ticks_append, h1.ticks, h2.ticks]
+    exact range_app _ _ _ h1.tickLe h2.tickLe
+  · intro u hu
+    simp only [F.seps_append, List.map_append, List.mem_append] at hu
+    rcases hu with hu | hu
+    · have := h1.uu u hu; have := h2.nuLe; omega
+    · have := h2.uu u hu; have := h1.nuLe; omega
+  · simp only [F.seps_append, List.map_append]
+    refine List.nodup_append.mpr ⟨h1.uun, h2.uun, ?_⟩
+    intro a ha b hb hab
+    have := h1.uu a ha; have := h2.uu b hb
+    omega
+
+/-- closing the node -/
+theorem RangeX.close {d0 : DS} {sepr : Bool} {kids : F} {d : DS} (h : RangeX d0 sepr kids d) (env : Env) (sp : Spec) (s sx : Fields)
+    (res : Outcome) : Range d0 (closeR env sepr sp d0 s kids sx res d) := by
+  have h1 := h.tickLe; have h2 := h.nuLe
+  cases sepr with
+  | false =>
+    simp only [Bool.false_eq_true, if_false] at h2
+    refine ⟨by simp only [closeR]; omega, by simp only [closeR]; omega, ?_, ?_, ?_⟩
+    · simp only [closeR, Bool.false_eq_true, if_false, F.ticks, T.ticks, h.ticks, List.append_nil]
+      exact range_wrap _ _ h1
+    · intro u hu
+      simp only [closeR, Bool.false_eq_true, if_false, F.seps, T.seps, List.append_nil] at hu
+      have := h.uu u hu
+      simp only [Bool.false_eq_true, if_false] at this
+      simp only [closeR]
+      omega
+    · simpa [closeR, F.seps, T.seps] using h.uun
+  | true =>
+    simp only [if_true] at h2
+    refine ⟨by simp only [closeR]; omega, by simp only [closeR]; omega, ?_, ?_, ?_⟩
+    · simp only [closeR, if_true, F.ticks, T.ticks, h.ticks, List.append_nil]
+      exact range_wrap _ _ h1
+    · intro u hu
+      simp only [closeR, if_true, F.seps, T.seps, List.map_append, List.map_cons, List.map_nil, List.mem_append,
+        List.mem_singleton] at hu
+      rcases hu with hu | hu
+      · have := h.uu u hu
+        simp only [if_true] at this
+        simp only [closeR]
+        omega
+      · subst hu; simp only [closeR]; omega
+    · simp only [closeR, if_true, F.seps, T.seps, List.map_append, List.map_cons, List.map_nil]
+      refine List.nodup_append.mpr ⟨h.uun, by simp, ?_⟩
+      intro a ha b hb hab
+      have := h.uu a ha
+      simp only [List.mem_singleton] at hb
+      simp only [if_true] at this
+      omega
+
+theorem Range.setWf {d : DS} {r : R} (h : Range d r) (b : Bool) : Range d { r with wf := b } :=
+  ⟨h.tickLe, h.nuLe, h.ticks, h.uu, h.uun⟩
+
 /-- only the clock and uuid counters matter -/
 theorem Range.congr {d d' : DS} {r : R} (h : Range d' r) (ht : d'.tick = d.tick) (hn : d'.nu = d.nu) : Range d r :=
   ⟨ht ▸ h.tickLe, hn ▸ h.nuLe, ht ▸ h.ticks, hn ▸ h.uu, h.uun⟩
@@ -411,12 +477,67 @@ theorem denB_range (env : Env) (cur : Option Exc) (inAct : Bool) (b : Block) (d 
   cases b with
   | nil => simp only [denB]; exact Range.nil d _ s _
   | cons st rest =>
-    rw [denB_cons]
-    have ih := denS_range env cur inAct st d s
-    cases ho : (denS env cur inAct st d s).out with
-    | ok => exact Range.seq ih (denB_range env cur inAct rest _ _) _
-    | stuck => exact ih
-    | raised e => exact ih
+    rcases Stmt.start_or st with ⟨x, task, sp, rfl⟩ | hns
+    · rw [denB_start]
+      refine (denX_range env cur inAct x (task || !inAct) sp d s rest .nil [] _ ?_).setWf _
+      refine ⟨Nat.le_refl _, ?_, by simp [F.ticks], by simp [F.seps], by simp [F.seps]⟩
+      cases (task || !inAct) <;> simp
+    · rw [denB_cons _ _ _ _ _ _ _ hns]
+      have ih := denS_range env cur inAct st d s
+      cases ho : (denS env cur inAct st d s).out with
+      | ok => exact Range.seq ih (denB_range env cur inAct rest _ _) _
+      | stuck => exact ih
+      | raised e => exact ih
+theorem denX_range (env : Env) (cur : Option Exc) (inAct : Bool) (x : Nat) (sepr : Bool) (sp : Spec) (d0 : DS) (s : Fields)
+    (b : Block) (kids : F) (sx : Fields) (d : DS) (h : RangeX d0 sepr kids d) :
+    Range d0 (denX env cur inAct x sepr sp d0 s b kids sx d) := by
+  cases b with
+  | nil => simp only [denX]; exact Range.nil d0 _ s _
+  | cons st rest =>
+    cases st with
+    | inContext y body =>
+      by_cases hy : y = x
+      · subst hy
+        rw [denX_ctx]
+        have ih := denB_range env cur true body d sx
+        simp only [segR]
+        cases ho : (denB env cur true body d sx).out with
+        | ok => exact (denX_range env cur inAct y sepr sp d0 s rest _ _ _ (h.seq ih)).setWf _
+        | stuck => exact Range.nil d0 _ s _
+        | raised e => exact Range.nil d0 _ s _
+      · simp only [denX, if_neg hy]; exact Range.nil d0 _ s _
+    | runIn y body =>
+      by_cases hy : y = x
+      · subst hy
+        rw [denX_run]
+        have ih := denB_range env cur true body d sx
+        simp only [segR]
+        cases ho : (denB env cur true body d sx).out with
+        | ok => exact (denX_range env cur inAct y sepr sp d0 s rest _ _ _ (h.seq ih)).setWf _
+        | stuck => exact Range.nil d0 _ s _
+        | raised e => exact Range.nil d0 _ s _
+      · simp only [denX, if_neg hy]; exact Range.nil d0 _ s _
+    | finish y exc =>
+      by_cases hy : y = x
+      · subst hy
+        rw [denX_finish]
+        exact Range.seq (h.close env sp s sx (finRes exc)) (denB_range env cur inAct rest _ _) _
+      · simp only [denX, if_neg hy]; exact Range.nil d0 _ s _
+    | withAction task sp' body => simp only [denX]; exact Range.nil d0 _ s _
+    | log ms => simp only [denX]; exact Range.nil d0 _ s _
+    | raise k => simp only [denX]; exact Range.nil d0 _ s _
+    | tryCatch body handler => simp only [denX]; exact Range.nil d0 _ s _
+    | writeTraceback => simp only [denX]; exact Range.nil d0 _ s _
+    | addSuccess z fs => simp only [denX]; exact Range.nil d0 _ s _
+    | probe k => simp only [denX]; exact Range.nil d0 _ s _
+    | startAs z task sp' => simp only [denX]; exact Range.nil d0 _ s _
+    | withHandle z body => simp only [denX]; exact Range.nil d0 _ s _
+    | logTo z ms => simp only [denX]; exact Range.nil d0 _ s _
+    | serializeAs z z' => simp only [denX]; exact Range.nil d0 _ s _
+    | continueWith z sp' body => simp only [denX]; exact Range.nil d0 _ s _
+    | addDests l => simp only [denX]; exact Range.nil d0 _ s _
+    | removeDest z => simp only [denX]; exact Range.nil d0 _ s _
+    | addGlobals fs => simp only [denX]; exact Range.nil d0 _ s _
 end
 
 /-! ### small facts used by the property theorems -/
@@ -477,8 +598,38 @@ theorem Stmt.structured_noCfg (a b : Bool) : ∀ st : Stmt, st.structured a b = 
 theorem Block.structured_noCfg (a b : Bool) : ∀ bl : Block, bl.structured a b = true → bl.noCfg = true
   | .nil, _ => rfl
   | .cons st r, h => by
-    simp only [Block.structured, Bool.and_eq_true] at h
-    simp [Block.noCfg, Stmt.structured_noCfg a b st h.1, Block.structured_noCfg a b r h.2]
+    rcases Stmt.start_or st with ⟨x, task, sp, rfl⟩ | hns
+    · rw [Block.structured_start] at h
+      simp [Block.noCfg, Stmt.noCfg, Block.structuredX_noCfg a b x r h]
+    · rw [Block.structured_cons _ _ _ _ hns] at h
+      simp only [Bool.and_eq_true] at h
+      simp [Block.noCfg, Stmt.structured_noCfg a b st h.1, Block.structured_noCfg a b r h.2]
+theorem Block.structuredX_noCfg (a b : Bool) (x : Nat) : ∀ bl : Block, bl.structuredX a b x = true → bl.noCfg = true
+  | .nil, h => by simp [Block.structuredX] at h
+  | .cons (.inContext y body) r, h => by
+    simp only [Block.structuredX, Bool.and_eq_true] at h
+    simp [Block.noCfg, Stmt.noCfg, Block.structured_noCfg a true body h.1.1.2, Block.structuredX_noCfg a b x r h.2]
+  | .cons (.runIn y body) r, h => by
+    simp only [Block.structuredX, Bool.and_eq_true] at h
+    simp [Block.noCfg, Stmt.noCfg, Block.structured_noCfg a true body h.1.1.2, Block.structuredX_noCfg a b x r h.2]
+  | .cons (.finish y exc) r, h => by
+    simp only [Block.structuredX, Bool.and_eq_true] at h
+    simp [Block.noCfg, Stmt.noCfg, Block.structured_noCfg a b r h.2]
+  | .cons (.withAction ..) _, h => by simp [Block.structuredX] at h
+  | .cons (.log ..) _, h => by simp [Block.structuredX] at h
+  | .cons (.raise ..) _, h => by simp [Block.structuredX] at h
+  | .cons (.tryCatch ..) _, h => by simp [Block.structuredX] at h
+  | .cons .writeTraceback _, h => by simp [Block.structuredX] at h
+  | .cons (.addSuccess ..) _, h => by simp [Block.structuredX] at h
+  | .cons (.probe ..) _, h => by simp [Block.structuredX] at h
+  | .cons (.startAs ..) _, h => by simp [Block.structuredX] at h
+  | .cons (.withHandle ..) _, h => by simp [Block.structuredX] at h
+  | .cons (.logTo ..) _, h => by simp [Block.structuredX] at h
+  | .cons (.serializeAs ..) _, h => by simp [Block.structuredX] at h
+  | .cons (.continueWith ..) _, h => by simp [Block.structuredX] at h
+  | .cons (.addDests ..) _, h => by simp [Block.structuredX] at h
+  | .cons (.removeDest ..) _, h => by simp [Block.structuredX] at h
+  | .cons (.addGlobals ..) _, h => by simp [Block.structuredX] at h
 end
 
 /-! ### the line codec, abstractly (instantiated from C10 in `Properties/C01.lean`) -/
